@@ -1,7 +1,7 @@
 // C13 harness: line protocol over the REAL lzma_index_* / lzma_index_hash_* / lzma_file_info_decoder API.
 // One result line per op. Index slots 0..7, iterator slots 0..3, one index_hash.
 //
-//   reset | init k | end k | sum k
+//   reset | init k | end k | sum k | reuse <0|1>  (1: encodes/decodes/finfo run on one long-lived lzma_stream)
 //   appendn k <count> <unpadded> <uncompressed>  -> "<ret> <done> S ..."   (stops at the first failure)
 //   append k <unpadded> <uncompressed>          -> "<ret> S ..."
 //   flags k <version> <backward_size> <check>   -> "<ret> S ..."
@@ -46,6 +46,12 @@ static void *h_alloc(void *opaque, size_t nmemb, size_t size)
 }
 static void h_free(void *opaque, void *ptr) { (void)opaque; free(ptr); }
 static lzma_allocator h_allocator = { &h_alloc, &h_free, NULL };
+
+// Handle reuse: with `reuse 1` the encoder/decoder/file-info ops run on ONE long-lived lzma_stream that is
+// re-initialised for every op without lzma_end() in between (whatever state the previous op left it in);
+// the answers must be those of a fresh handle.
+static lzma_stream g_strm = LZMA_STREAM_INIT;
+static bool g_reuse = false;
 
 static lzma_index *idx[NSLOT];
 static unsigned gen[NSLOT];
@@ -115,6 +121,12 @@ int main(void)
 			for (int t = 0; t < NITER; ++t) iters[t].inited = false;
 			lzma_index_hash_end(hash, &h_allocator);
 			hash = NULL;
+			lzma_end(&g_strm);       // every history starts with a fresh handle, so that a replay needs no earlier history
+			g_reuse = false;
+			printf("ok\n");
+		} else if (!strcmp(op, "reuse") && n == 2) {
+			g_reuse = hp_u64(l.tok[1]) != 0;
+			if (!g_reuse) { lzma_end(&g_strm); }
 			printf("ok\n");
 		} else if (!strcmp(op, "appendn") && n == 5 && slot_of(l.tok[1]) >= 0) {
 			// <count> identical appends, stops at the first failure: "<ret> <done> S"
@@ -181,7 +193,9 @@ int main(void)
 			if (idx[k] == NULL) { printf("null\n"); continue; }
 			size_t chunk = (size_t)hp_u64(l.tok[2]);
 			if (chunk == 0) chunk = 1;
-			lzma_stream strm = LZMA_STREAM_INIT;
+			lzma_stream fresh = LZMA_STREAM_INIT;
+			lzma_stream *sp = g_reuse ? &g_strm : &fresh;
+#define strm (*sp)
 			strm.allocator = &h_allocator;
 			lzma_ret r = lzma_index_encoder(&strm, idx[k]);
 			size_t cap = (size_t)lzma_index_size(idx[k]) + 64, len = 0;
@@ -195,7 +209,9 @@ int main(void)
 				memcpy(out + len, tmp, got); len += got;
 			}
 			printf("%d %" PRIu64 " ", (int)r, strm.total_out); hp_put_hex(out, len); printf("\n");
-			lzma_end(&strm); free(out); free(tmp);
+			if (!g_reuse) lzma_end(&strm);
+#undef strm
+			free(out); free(tmp);
 		} else if (!strcmp(op, "decode") && n == 4 && slot_of(l.tok[1]) >= 0) {
 			int k = slot_of(l.tok[1]);
 			uint64_t memlimit = hp_u64(l.tok[2]);
@@ -214,7 +230,9 @@ int main(void)
 			if (chunk == 0) chunk = 1;
 			size_t len; uint8_t *in = hp_hex(l.tok[4], &len);
 			lzma_index *ni = NULL;
-			lzma_stream strm = LZMA_STREAM_INIT;
+			lzma_stream fresh = LZMA_STREAM_INIT;
+			lzma_stream *sp = g_reuse ? &g_strm : &fresh;
+#define strm (*sp)
 			strm.allocator = &h_allocator;
 			lzma_ret r = lzma_index_decoder(&strm, &ni, memlimit);
 			size_t pos = 0;
@@ -229,10 +247,14 @@ int main(void)
 				free(piece);
 			}
 			uint64_t mu = lzma_memusage(&strm);
-			lzma_end(&strm);
+			uint64_t tin = strm.total_in;
+			// reuse: the handle stays alive in whatever state it is (finished, abandoned mid-stream, failed);
+			// the next op re-initialises it, which must not touch &ni of this op any more
+			if (!g_reuse) lzma_end(&strm);
+#undef strm
 			drop(k);
 			idx[k] = ni;
-			printf("%d %" PRIu64 " ", (int)r, strm.total_in);
+			printf("%d %" PRIu64 " ", (int)r, tin);
 			if (r == LZMA_MEMLIMIT_ERROR) printf("%" PRIu64 " ", mu); else printf("- ");
 			put_sum(idx[k]); printf("\n");
 			free(in);
@@ -299,7 +321,9 @@ int main(void)
 			uint64_t state = hp_u64(l.tok[4]);
 			size_t len; uint8_t *file = hp_hex(l.tok[5], &len);
 			lzma_index *ni = NULL;
-			lzma_stream strm = LZMA_STREAM_INIT;
+			lzma_stream fresh = LZMA_STREAM_INIT;
+			lzma_stream *sp = g_reuse ? &g_strm : &fresh;
+#define strm (*sp)
 			strm.allocator = &h_allocator;
 			lzma_ret r = lzma_file_info_decoder(&strm, &ni, memlimit, len);
 			uint64_t pos = 0;
@@ -324,7 +348,8 @@ int main(void)
 					break;
 				}
 			}
-			lzma_end(&strm);
+			if (!g_reuse) lzma_end(&strm);
+#undef strm
 			drop(k);
 			idx[k] = ni;
 			printf("%d %d ", (int)r, oob); put_sum(idx[k]); printf(" # seeks=%lu calls=%lu\n", seeks, calls);
@@ -363,6 +388,7 @@ int main(void)
 	}
 	for (int k = 0; k < NSLOT; ++k)
 		drop(k);
+	lzma_end(&g_strm);
 	lzma_index_hash_end(hash, &h_allocator);
 	hp_done(&l);
 	return 0;
